@@ -197,6 +197,19 @@ ACCESS_FORMS = ['$c.{n}', '$c?.{n}', '$c.{n}()', '$c.{n}(1, a => 2)',
                 'datetime($c)', 'regex($c)', "'a' =~ $c", 'range($c)',
                 '$c.{n} = 1', 'switch($c => 1)', 'coalesce($c)',
                 'assert($c, $.{n})', 'let(x => $c) -> $x.{n}',
+                # the object under a key that the other dictionary maps to
+                # a dictionary / list (deep merge looks at both values)
+                'dict(a => $c).mergeWith(dict(a => dict(b => 1)))',
+                'dict(k => dict(a => $c)).mergeWith(dict(k => dict(a => '
+                'dict(b => 1))))',
+                'dict(a => dict(b => 1)).mergeWith(dict(a => $c))',
+                'dict(a => $c).mergeWith(dict(a => [1]))',
+                'dict(a => [$c]).mergeWith(dict(a => [dict(b => 1)]))',
+                'dict(a => $c).mergeWith(dict(a => $c))',
+                'dict(a => $c).mergeWith(dict(a => dict(b => 1)), '
+                '$1 + $2, $1, 2)',
+                '{{a => $c}} + {{a => {{b => 1}}}}',
+                'dict(a => $c).set(a, dict(b => 1))',
                 # failing assertions on the object with a format template as
                 # the message
                 "$c.assert(false, '{{0.{n}}}')",
